@@ -249,4 +249,24 @@ def clauses (res : String) (ls : List LeafObs) : List (String × Bool) :=
 
 end Disp
 
+/-! ## config.SetIfNotDefault / config.ParseDurations driven directly (case kinds `sind`, `pdur`, round 8)
+
+"No well-formed setting is silently dropped (a numeric or duration zero conventionally means 'use the default')":
+a non-zero source of a type the function supports must arrive in the destination; a parsable duration must arrive,
+an empty one keeps the current value, an unparsable one is refused with an error. -/
+namespace Util
+
+def sindClauses (guard : String) (z : Bool) (src out : String) : List (String × Bool) :=
+  [ ("no_crash", out != "panic"),
+    ("preserved", guard == "none" || z || out == src) ]
+
+/-- `args`: e (empty) | b (unparsable) | o<ns>; per argument the current and the resulting value -/
+def pdurClauses (args : List String) (cur out : List String) (res : String) : List (String × Bool) :=
+  let rows := (args.zip (cur.zip out))
+  [ ("no_crash", res != "panic"),
+    ("refused_invalid", !(args.contains "b") || res == "err"),
+    ("preserved", res != "ok" || rows.all (fun (a, c, o) => if a == "e" then o == c else if a.startsWith "o" then o == (a.drop 1).toString else true)) ]
+
+end Util
+
 end CV.C15
